@@ -48,8 +48,8 @@ SANITY = ["TypeOK", "ActiveSane", "NoClosedHeld"]
 ALLK = '{"clean","abandon","nonlast"}'
 
 
-def _c(nb, rounds, mis, mc, deaths, kinds, reaper, closer, dev):
-    return {"NB": nb, "MaxRounds": rounds, "RoundsSet": Raw("{%d}" % rounds), "MaxIdleSet": Raw(mis), "MaxClock": mc,
+def _c(nb, rounds, mis, mc, deaths, kinds, reaper, closer, dev, nkeys=1):
+    return {"NB": nb, "KeysSet": Raw("{%d}" % nkeys), "MaxRounds": rounds, "RoundsSet": Raw("{%d}" % rounds), "MaxIdleSet": Raw(mis), "MaxClock": mc,
             "MaxDeaths": deaths, "Kinds": Raw(kinds), "ReaperInit": Raw('{"wait"}' if reaper else '{"off"}'),
             "CloserInit": Raw('{"start"}' if closer else '{"off"}'),
             "Dev_MaxIdleZeroKeeps": dev[0], "Dev_LastSessionOnly": dev[1]}
@@ -109,6 +109,7 @@ def run(ctx: Ctx) -> None:
         "G2 2 borrowers + reaper + clock, max_idle 1/2": (_c(2, 1, "{1,2}", 1, 0, '{"clean"}', True, False, dev), 2),
         "G3 2 borrowers + close(), scripts clean/abandon": (_c(2, 1, "{1}", 0, 0, '{"clean","abandon"}', False, True, dev), 2),
         "G4 3 borrowers + one worker death": (_c(3, 1, "{1}", 0, 1, '{"clean"}', False, False, dev), 3),
+        "G7 3 borrowers, 2 command keys, max_idle 1": (_c(3, 1, "{1}", 0, 0, '{"clean"}', False, False, dev, nkeys=2), 3),
     }
     if not quick:
         graphs["G5 2 borrowers x 2 rounds + close() + reaper, max_idle 2"] = (
@@ -122,9 +123,11 @@ def run(ctx: Ctx) -> None:
         if quick:
             mc["intended 2 borrowers x 1 round, everything on"] = _c(2, 1, "{0,1,2}", 1, 1, ALLK, True, True, (False, False))
             mc["intended 2 borrowers x 2 rounds, close(), death"] = _c(2, 2, "{0,1,2}", 0, 1, ALLK, False, True, (False, False))
+            mc["intended 3 borrowers, 2 command keys"] = _c(3, 1, "{0,1}", 0, 0, '{"clean","nonlast"}', False, False, (False, False), nkeys=2)
         else:
             mc["intended 2 borrowers x 2 rounds, everything on"] = _c(2, 2, "{0,1,2}", 1, 1, ALLK, True, True, (False, False))
             mc["intended 3 borrowers x 1 round, everything on"] = _c(3, 1, "{0,1,2}", 1, 1, ALLK, True, True, (False, False))
+            mc["intended 3 borrowers x 1 round, 2 command keys"] = _c(3, 1, "{0,1,2}", 1, 0, ALLK, True, True, (False, False), nkeys=2)
             mc["intended 2 borrowers x 2 rounds, clock 2"] = _c(2, 2, "{0,1,2}", 2, 1, ALLK, True, True, (False, False))
         mc_jobs = {k: pool.submit(run_tlc, wd, "Pool", render_cfg(constants=c, invariants=SANITY + CLAUSES),
                                   coverage=(i == 0), cfg_name=f"PO_mc{i}.cfg", timeout=1500)
@@ -187,7 +190,7 @@ def run(ctx: Ctx) -> None:
         for i in range(100 if quick else 2500):
             r = ctx.rng
             res = PW.run_random(r, r.choice([2, 2, 3]), r.choice([1, 2]), r.choice([0, 1, 2]), r.random() < 0.7,
-                                r.random() < 0.5)
+                                r.random() < 0.5, nkeys=r.choice([1, 1, 2]))
             sched = [f"{e['a']}{e['k'] or ''}{':' + e['kind'] if e['kind'] else ''}" for e in res["trace"]]
             runs.append(res)
             metas.append({"source": "random-walk", "schedule": sched, **res["header"]})
@@ -196,9 +199,9 @@ def run(ctx: Ctx) -> None:
                 ctx.drift.append({"spec": "Pool", "thread_errors": res["errors"]})
         mid = len(runs) // 2
         ctx.sample({"spec": "Pool", **{k: metas[mid][k] for k in ("mi", "rounds", "rpc0", "cpc0")},
-                    "schedule": metas[mid]["schedule"],
+                    "command_keys": metas[mid]["nkeys"], "schedule": metas[mid]["schedule"],
                     "observable_history": [f"{m['e']}(b{m['b']},w{m['w']},{m['ok']})" for m in runs[mid]["mon"] if m["e"] != "Idle"]})
-        tc = {"NB": 3, "MaxRounds": 2, "RoundsSet": Raw("{1,2}"), "MaxIdleSet": Raw("{0,1,2}"), "MaxClock": 2, "MaxDeaths": 1,
+        tc = {"NB": 3, "KeysSet": Raw("{1,2}"), "MaxRounds": 2, "RoundsSet": Raw("{1,2}"), "MaxIdleSet": Raw("{0,1,2}"), "MaxClock": 2, "MaxDeaths": 1,
               "Kinds": Raw(ALLK), "ReaperInit": Raw('{"wait","off"}'), "CloserInit": Raw('{"start","off"}'),
               "Dev_MaxIdleZeroKeeps": True, "Dev_LastSessionOnly": True}       # switches are per-step in the trace spec
         mon_job = pool.submit(tracecheck.validate, ctx, wd, "PoolMonitor", [{"ev": r["mon"]} for r in runs], spec="MSpec",
